@@ -9,6 +9,12 @@ CHECKS = {
              note='trusts the modelled semantics of 10 x86 mnemonics and clang lowering; USE_MONTGOMERY=0 as built; refutations carry an exact-arithmetic witness', tech='abstract interpretation (limb-split integer polynomials + intervals + carry trace partitioning) incl. x86 asm templates; asm constraint lint'),
  'C02': dict(cat='proof', text='kernel-mode abstract interpretation of all 18 contracted AVX2 kernels (14 field, 3 exact-product, 1 dot) per lane and per precondition box: out = field op mod p / exact product over Z with no intermediate wrap, outputs within the contract post-range',
              note='trusts clang lowering of intrinsics to generic IR, opt sroa/early-cse, glv kernel semantics; contracts transcribed from the header comments (glv/contracts.py)', tech='abstract interpretation (limb-split integer polynomials + intervals + carry trace partitioning)'),
+ 'C03': dict(cat='proof', text='bounded-shape abstract interpretation of constructor + NTT + scatter on the IR with concrete shapes and symbolic matrix entries: each output cell has the DFT coefficient vector (library root W[log2 n]); source untouched; no sink, out-of-bounds, uninitialised read or leak; size 0 / zero columns no-op; 3.7k shape configurations quick (capacity <= 32), ~100k thorough (capacity <= 128, two thread settings)',
+             note='universal in data and representation, bounded in shape; the DFT identity beyond the bound is not decided; GMP constructor calls modelled on Python integers', tech='abstract interpretation of LLVM IR with shape parameters fixed by constant propagation (linear forms over input atoms vs DFT matrix)'),
+ 'C04': dict(cat='proof', text='as C03 for INTT (coefficient vectors n^-1 w^-jk) plus the matrix identity IDFT x DFT = I for each size in the bound, giving INTT(NTT(x)) = NTT(INTT(x)) = x; null destination = in place',
+             note='as C03', tech='abstract interpretation of LLVM IR with shape parameters fixed by constant propagation'),
+ 'C05': dict(cat='proof', text='as C03 for extendPol incl. the internally constructed extension object: out[k][c] = f_c(7 w_Next^k) as linear forms, in place and with separate input; 3.5k configurations quick (N <= N_ext <= 32)',
+             note='as C03', tech='abstract interpretation of LLVM IR with shape parameters fixed by constant propagation'),
  'C06': dict(cat='proof', text='the three full-result permutations interpreted abstractly on symbolic states (x^7 S-boxes as AC-normalised power products of hash-consed linear forms): all outputs equal the specified 4+22+4-round permutation written in the checker, hence agree; AVX512 per interleaved state; lane-kernel preconditions at all call sites; tables canonical / 8-bit / transposed-flattening relations; hash* = first four elements',
              note='round constants and matrices are taken from the library tables (no independent source in the repository); lane kernels by contract (C01/C02/C11)', tech=AI + ': residue normal forms with opaque power products; sibling agreement'),
  'C07': dict(cat='proof', text='linear_hash_seq/linear_hash/linear_hash_avx512 interpreted for every length 0..256 (quick) / 0..2048 (thorough) with the permutation opaque: digest cells and input read set equal the reference sponge; universal in element values, bounded in length',
@@ -25,6 +31,8 @@ CHECKS = {
              note='trusts the shape-code grammar (frozen table, one documented exception), kernel contracts, glv IR semantics', tech=AI + ' vs signature-derived oracle'),
  'C17': dict(cat='proof', text='all copy/add/sub/mul _batch/_avx/_avx512 overloads interpreted on symbolic operands, strides and index arrays against a signature-derived specification; exact write set and read footprint',
              note='trusts the role grammar, kernel contracts, glv IR semantics; parcpy/parSetZero are decided under C12/C18 rules', tech=AI + ' vs signature-derived oracle'),
+ 'C19': dict(cat='model_checking', text='reachability closure over the abstract state of one transform object: every operation of the bounded alphabet is applied in every distinct reachable object state (fields + owned tables), each result compared with the specification for all data; closure covers all finite call sequences over the alphabet',
+             note='alphabet bounded (capacity <= 16 quick / 64 thorough, two phase/block settings, ncols = 2); the implementation itself is interpreted (no extracted model)', tech='abstract interpretation + explicit reachability over canonicalised object states'),
 }
 NA = {}
 man = {
